@@ -229,4 +229,170 @@ theorem unchanged_keeps_controller_partial_LoadRulesOfResource (K : Calc R S) (h
   rw [loadRulesOfResource_ctls]
   exact unchanged_keeps_controller_partial K hK now _ _ _ j r c hns hj hc
 
+/-! ## decisions_invariant_under_reload -/
+
+/-- a load whose list is, rule by rule, `isEqualsTo` the rules the old controllers are bound to returns exactly the old
+    controllers (this is also why the `reflect.DeepEqual` short cut of `LoadRules` needs no modelling) -/
+theorem build_self (K : Calc R S) (now : Nat) (new : List R) (old : List (Ctl R S)) (next : Nat)
+    (h : List.Forall₂ (fun c r => K.eq c.rule r = true) old new) : build K now new old next = old := by
+  induction h generalizing next with
+  | nil => rfl
+  | @cons c r cs rs hcr _ ih =>
+    have := build_cons_eq K now r rs [] c cs next (by simp) hcr
+    simp only [List.nil_append] at this
+    rw [this, ih]
+
+/-- one step of a history on one rule manager.  Traffic on a resource is *any* function of that resource's controllers
+    (entry checks, completions, …) producing an observation; reloads go through either load path. -/
+inductive Op (R S O : Type) where
+  | traffic (x : Nat) (f : List (Ctl R S) → List (Ctl R S) × O)
+  | reload (now : Nat) (rules : List R)
+  | reloadRes (now : Nat) (x : Nat) (rules : List R)
+
+def Op.isTraffic {O : Type} : Op R S O → Bool
+  | .traffic .. => true
+  | _ => false
+
+def stepOp {O : Type} (K : Calc R S) (valid : R → Bool) (res : R → Nat) (m : Mgr R S) : Op R S O → Mgr R S × List (Nat × O)
+  | .traffic x f => let (cs, o) := f (m.ctls x); (m.set x cs, [(x, o)])
+  | .reload now rules => (m.loadRules K valid res now rules, [])
+  | .reloadRes now x rules => (m.loadRulesOfResource K valid res now x rules, [])
+
+/-- the observations of a history, in order, each tagged with its resource -/
+def runOps {O : Type} (K : Calc R S) (valid : R → Bool) (res : R → Nat) : Mgr R S → List (Op R S O) → List (Nat × O)
+  | _, [] => []
+  | m, op :: ops => (stepOp K valid res m op).2 ++ runOps K valid res (stepOp K valid res m op).1 ops
+
+/-- "every reload of the history leaves the rules of resource `x` unchanged": at each reload that touches `x`, the rules
+    it lists for `x` are, one by one, `isEqualsTo` the rules `x`'s controllers are bound to at that moment -/
+def UnchangedOn {O : Type} (K : Calc R S) (valid : R → Bool) (res : R → Nat) (x : Nat) : Mgr R S → List (Op R S O) → Prop
+  | _, [] => True
+  | m, op :: ops =>
+    (match op with
+      | .traffic .. => True
+      | .reload _ rules => List.Forall₂ (fun c r => K.eq c.rule r = true) (m.ctls x) (rulesOf valid res x rules)
+      | .reloadRes _ y rules => y = x → List.Forall₂ (fun c r => K.eq c.rule r = true) (m.ctls x) (rulesOf valid res x rules))
+    ∧ UnchangedOn K valid res x (stepOp K valid res m op).1 ops
+
+theorem decisions_invariant_aux {O : Type} (K : Calc R S) (valid : R → Bool) (res : R → Nat) (x : Nat)
+    (ops : List (Op R S O)) (mA mB : Mgr R S) (hm : mA.ctls x = mB.ctls x) (hu : UnchangedOn K valid res x mA ops) :
+    (runOps K valid res mA ops).filter (·.1 = x) = (runOps K valid res mB (ops.filter Op.isTraffic)).filter (·.1 = x) := by
+  induction ops generalizing mA mB with
+  | nil => rfl
+  | cons op ops ih =>
+    obtain ⟨h1, h2⟩ := hu
+    cases op with
+    | traffic y f =>
+      simp only [List.filter_cons, Op.isTraffic, if_true, runOps, stepOp, List.filter_append] at h2 ⊢
+      by_cases hy : y = x
+      · subst hy
+        simp only [decide_true, if_true, List.filter_nil, List.cons_append, List.nil_append]
+        rw [hm] at h2 ⊢
+        congr 1
+        exact ih _ _ (by simp [Mgr.set]) h2
+      · simp only [hy, decide_false, Bool.false_eq_true, if_false, List.filter_nil, List.nil_append]
+        exact ih _ _ (by simp [Mgr.set, Ne.symm hy, hm]) h2
+    | reload now rules =>
+      simp only [List.filter_cons, Op.isTraffic, runOps, stepOp, List.nil_append] at h2 ⊢
+      refine ih _ _ ?_ h2
+      rw [loadRules_ctls, build_self K now _ _ _ h1, hm]
+    | reloadRes now y rules =>
+      simp only [List.filter_cons, Op.isTraffic, runOps, stepOp, List.nil_append] at h2 ⊢
+      refine ih _ _ ?_ h2
+      by_cases hy : y = x
+      · subst hy
+        rw [loadRulesOfResource_ctls, build_self K now _ _ _ (h1 rfl), hm]
+      · rw [loadRulesOfResource_other K valid res now rules mA y x (Ne.symm hy), hm]
+
+/-- **C14, decision level.**  From any manager state (whatever loads and traffic produced it), for every history of
+    traffic on any resources with reloads inserted anywhere, through either load path, listing anything at all for the
+    *other* resources: if the reloads leave the rules of `x` unchanged, the observations on `x` (decisions, waits,
+    blocking rule — whatever the traffic functions return) are exactly those of the same history without the reloads. -/
+theorem decisions_invariant_under_reload {O : Type} (K : Calc R S) (valid : R → Bool) (res : R → Nat) (x : Nat)
+    (m : Mgr R S) (ops : List (Op R S O)) (hu : UnchangedOn K valid res x m ops) :
+    (runOps K valid res m ops).filter (·.1 = x) = (runOps K valid res m (ops.filter Op.isTraffic)).filter (·.1 = x) :=
+  decisions_invariant_aux K valid res x ops m m rfl hu
+
+/-- the hypothesis is satisfiable with a real reload that rewrites another resource -/
+example : UnchangedOn (O := Unit) cbCalc CbRule.valid (·.res) 7
+    { ctls := fun x => if x = 7 then wOld else [], next := 1 } [.reload 6 [wA, ⟨5, 8, 2, 1000, 1, 1000, 1, 0, 3, 0⟩]] := by
+  refine ⟨?_, trivial⟩
+  show List.Forall₂ _ wOld [wA]
+  exact List.Forall₂.cons (by decide) List.Forall₂.nil
+
+/-! ## stat_reuse_keeps_statistics -/
+
+/-- a modified rule (no old controller `isEqualsTo` it) takes over the state component `Calc.reuse` keeps — the
+    statistic — of the first old controller it is stat-reusable with -/
+theorem stat_reuse_keeps_statistics_head (K : Calc R S) (now : Nat) (r : R) (rs : List R) (l1 : List (Ctl R S))
+    (c0 : Ctl R S) (l2 : List (Ctl R S)) (next : Nat)
+    (hmod : ∀ x ∈ l1 ++ c0 :: l2, K.eq x.rule r = false) (hfirst : ∀ x ∈ l1, K.sr x.rule r = false)
+    (hsr : K.sr c0.rule r = true) :
+    ((build K now (r :: rs) (l1 ++ c0 :: l2) next)[0]?).map (·.st) = some (K.reuse r c0.st now) := by
+  rw [build_cons_stat K now r rs l1 c0 l2 next hmod hfirst hsr]; rfl
+
+/-- the property's last sentence, list level: the rule at position `j` of the new list is a *modification* (nothing old
+    `isEqualsTo` it), `c0` is the only old controller it is stat-reusable with, and no earlier new rule is equal to or
+    stat-reusable with `c0`'s rule: then the controller built at `j` carries `c0`'s statistic. -/
+theorem stat_reuse_keeps_statistics (K : Calc R S) (now : Nat) (new : List R) (old : List (Ctl R S)) (next j : Nat)
+    (r : R) (c0 : Ctl R S) (hc0 : c0 ∈ old) (hj : new[j]? = some r)
+    (hmod : ∀ x ∈ old, K.eq x.rule r = false)
+    (honly : ∀ x ∈ old, K.sr x.rule r = true → x = c0) (hsr : K.sr c0.rule r = true)
+    (hearlier : ∀ i < j, ∀ r', new[i]? = some r' → K.eq c0.rule r' = false ∧ K.sr c0.rule r' = false) :
+    ((build K now new old next)[j]?).map (·.st) = some (K.reuse r c0.st now) := by
+  induction new generalizing old next j with
+  | nil => simp at hj
+  | cons r0 rs ih =>
+    cases j with
+    | zero =>
+      simp only [List.getElem?_cons_zero, Option.some.injEq] at hj
+      subst hj
+      rcases reuseIdx_snd K r0 old 0 hmod with ⟨-, hn⟩ | ⟨l1, d0, l2, e, hl, hd0, -⟩
+      · rw [hn c0 hc0] at hsr; exact absurd hsr Bool.false_ne_true
+      · have hd : d0 = c0 := honly d0 (by rw [e]; simp) hd0
+        subst hd e
+        exact stat_reuse_keeps_statistics_head K now r0 rs l1 d0 l2 next hmod hl hd0
+    | succ j' =>
+      simp only [List.getElem?_cons_succ] at hj
+      have h0 := hearlier 0 (Nat.succ_pos _) r0 rfl
+      have hrest : ∀ i < j', ∀ r', rs[i]? = some r' → K.eq c0.rule r' = false ∧ K.sr c0.rule r' = false :=
+        fun i hi r' hr' => hearlier (i+1) (Nat.succ_lt_succ hi) r' (by simpa using hr')
+      -- whatever `r0` consumes, it is not `c0`
+      have sub : ∀ (m1 : List (Ctl R S)) (d0 : Ctl R S) (m2 : List (Ctl R S)), old = m1 ++ d0 :: m2 → d0 ≠ c0 →
+          ∀ nx, ((build K now rs (m1 ++ m2) nx)[j']?).map (·.st) = some (K.reuse r c0.st now) := by
+        intro m1 d0 m2 e hne nx
+        have hsubset : ∀ x ∈ m1 ++ m2, x ∈ old := by
+          intro x hx; rw [e]; simp only [List.mem_append, List.mem_cons] at hx ⊢; tauto
+        refine ih (m1 ++ m2) nx j' ?_ hj (fun x hx => hmod x (hsubset x hx))
+          (fun x hx => honly x (hsubset x hx)) hrest
+        have : c0 ∈ m1 ++ d0 :: m2 := e ▸ hc0
+        simp only [List.mem_append, List.mem_cons] at this ⊢
+        rcases this with h | h | h
+        · exact Or.inl h
+        · exact absurd h.symm hne
+        · exact Or.inr h
+      by_cases hex : ∃ c' ∈ old, K.eq c'.rule r0 = true
+      · obtain ⟨m1, d0, m2, e, hl, hd0, -⟩ := reuseIdx_finds K r0 old 0 none hex
+        have hne : d0 ≠ c0 := by
+          intro hx; rw [hx, h0.1] at hd0; exact Bool.false_ne_true hd0
+        have := sub m1 d0 m2 e hne next
+        rw [e, build_cons_eq K now r0 rs m1 d0 m2 next hl hd0]
+        simpa using this
+      · have hall : ∀ c' ∈ old, K.eq c'.rule r0 = false := by
+          intro c' hc'; by_contra hne; exact hex ⟨c', hc', by simpa using hne⟩
+        rcases reuseIdx_snd K r0 old 0 hall with ⟨-, hnone⟩ | ⟨m1, d0, m2, e, hl, hd0, -⟩
+        · rw [build_cons_fresh K now r0 rs old next hall hnone]
+          simp only [List.getElem?_cons_succ]
+          exact ih old (next+1) j' hc0 hj hmod honly hrest
+        · have hne : d0 ≠ c0 := by
+            intro hx; rw [hx, h0.2] at hd0; exact Bool.false_ne_true hd0
+          have := sub m1 d0 m2 e hne (next+1)
+          rw [e] at hall ⊢
+          rw [build_cons_stat K now r0 rs m1 d0 m2 next hall hl hd0]
+          simpa using this
+
+/-- what "the statistic" is for the three managers: the breaker's window counters, the flow controller's read statistic -/
+theorem cb_reuse_keeps_counters (r : CbRule) (st : CbSt) (now : Nat) : (cbCalc.reuse r st now).arr = st.arr := rfl
+theorem flow_reuse_keeps_stat (r : FlowRule) (st : FlowSt) (now : Nat) : (flowCalc.reuse r st now).statId = st.statId := rfl
+
 end Sentinel.C14
